@@ -135,6 +135,9 @@ def gen_cases(rng, tier):
         if rng.random() < 0.25:
             names = [k["name"] for k in keys]
             c["batched"] = rng.sample(names, rng.randint(1, len(names)))
+        if rng.random() < 0.3:
+            # a heterogeneous parameter inside the equations of a system (the decorator around `equation`)
+            c["het"] = {keys[0]["name"]: "fn"}
         # dynamic_loss_dict / u_dict (and every per-unknown dict) are built in a non-sorted key order
         c["eq_order"] = rng.sample(range(E), E)
         c["u_order"] = rng.sample(range(U), U)
@@ -354,6 +357,10 @@ def nontrivial(case, obs):
 
 
 def tags(case, obs):
+    return _tags0(case, obs) + (["heterogeneous_parameter"] if case.get("het") else [])
+
+
+def _tags0(case, obs):
     out = [f"kind={case['kind']}", f"E={case['E']}", f"U={case['U']}", f"E_U={case['E']}x{case['U']}"]
     for f, v in case["weights"].items():
         if v is None:
